@@ -55,9 +55,14 @@ func cmdDefs(o opts) {
 	for _, nd := range shipped {
 		writeJSON(o.out+"."+nd.Name+".json", dialectIndices(nd.D, ix))
 	}
+	writeJSON(o.out+".allplus.json", dialectIndices(findDialect("allplus"), ix))
 }
 
 func findDialect(name string) *dialect.Dialect {
+	if name == "allplus" { // every shipped message plus the harness's user messages (ids up to 0xFFFFFF)
+		all := findDialect("all")
+		return &dialect.Dialect{Version: all.Version, Messages: append(append([]message.Message{}, all.Messages...), userMessages...)}
+	}
 	for _, nd := range shipped {
 		if nd.Name == name {
 			return nd.D
